@@ -122,6 +122,14 @@ def dotted(node) -> t.Optional[str]:
     return None
 
 
+def _baseline_class_names() -> frozenset:
+    try:
+        with open(os.path.join(os.path.dirname(os.path.abspath(__file__)), "baseline_classes.txt")) as fh:
+            return frozenset(l.strip() for l in fh if l.strip())
+    except OSError:
+        return frozenset()
+
+
 class Program:
     def __init__(self, root: t.Optional[str] = None):
         self.root = root or repo_root()
@@ -152,7 +160,7 @@ class Program:
                 tree = ast.parse(raw, filename=path)
             except SyntaxError as exc:
                 raise AnalysisError(f"{path} does not parse: {exc}") from exc
-            normalise(tree)
+            normalise(tree, _baseline_class_names(), short)
             mi = ModuleInfo(short, path, f"src/someip/{short}.py", tree, raw.decode("utf-8", "replace"))
             self.modules[short] = mi
         self.digest = h.hexdigest()
